@@ -79,3 +79,49 @@ Definition CheckRequired (ignore_signatures : bool) (listed : list string) (inde
 Definition check_required_b (ignore_signatures : bool) (listed : list string) (index arch : string) : bool :=
   negb ignore_signatures &&
   forallb (fun r => negb (String.eqb (r ++ "/" ++ arch ++ "/APKINDEX.tar.gz")%string index)) listed.
+
+(* ---- histories of GetRepositoryIndexes calls in one process ------------------
+   A call names repositories, a key set, the ignore flag and an exemption list;
+   it returns an error or a set of repositories whose index came back.  The
+   property speaks about EVERY call: an index is used by a call only if THAT call
+   authorised it — verification off, the repository exempted by that call, or the
+   index signed by a key that call configured.  What an earlier call accepted
+   must not leak into a later one. *)
+Record repo_call := {
+  rc_repos : list nat; rc_keys : list string; rc_ignore : bool; rc_exempt : list nat;
+  o_err : bool; o_got : list nat }.
+
+Section History.
+  Variable signer : nat -> option string.     (* whose valid signature the repository's index carries, if any *)
+  Variable loc : nat -> string.               (* the repository's location string *)
+  Variable arch : string.
+
+  Definition call_check_required (c : repo_call) (r : nat) : bool :=
+    check_required_b (rc_ignore c) (map loc (rc_exempt c)) (loc r ++ "/" ++ arch ++ "/APKINDEX.tar.gz")%string arch.
+
+  Definition authorised_b (c : repo_call) (r : nat) : bool :=
+    negb (call_check_required c r) ||
+    match signer r with Some k => existsb (String.eqb k) (rc_keys c) | None => false end.
+
+  Definition Authorised (c : repo_call) (r : nat) : Prop :=
+    call_check_required c r = true -> exists k, signer r = Some k /\ In k (rc_keys c).
+
+  Definition HistoryHolds (calls : list repo_call) : Prop :=
+    forall c, In c calls -> forall r, In r (o_got c) -> Authorised c r.
+
+  (* tags of one call given the calls before it: an unauthorised index that an
+     EARLIER call of the same history obtained points at the process-wide cache *)
+  Definition call_tags (earlier : list repo_call) (c : repo_call) : list string :=
+    flat_map (fun r =>
+      if authorised_b c r then []
+      else if existsb (fun e => existsb (Nat.eqb r) (o_got e)) earlier
+           then ["viol:index-cache-ignores-verification-context"]
+           else ["viol:index-used-without-trusted-signature"]) (o_got c).
+
+  Fixpoint history_tags_from (earlier calls : list repo_call) : list string :=
+    match calls with
+    | [] => []
+    | c :: rest => call_tags earlier c ++ history_tags_from (earlier ++ [c]) rest
+    end.
+  Definition history_tags (calls : list repo_call) : list string := history_tags_from [] calls.
+End History.
